@@ -144,13 +144,18 @@ def parse_frame(buf, block=8):
     return total, payload, info
 
 
+def ssh1_crc(data):
+    """SSH-1's CRC-32: the usual polynomial, but initial value 0 and no final inversion."""
+    return (zlib.crc32(data, 0xffffffff) ^ 0xffffffff) & 0xffffffff
+
+
 def frame1(ptype, payload):
     """SSH-1 packet."""
     body = bytes([ptype]) + payload
     length = len(body) + 4
     pad = 8 - (length % 8)
     padding = b'\x00' * pad
-    crc = zlib.crc32(padding + body) & 0xffffffff
+    crc = ssh1_crc(padding + body)
     return struct.pack('>I', length) + padding + body + struct.pack('>I', crc)
 
 
